@@ -20,7 +20,7 @@ func init() {
 	for _, w := range c13Workloads {
 		floor = append(floor, "workload."+w)
 	}
-	floor = append(floor, "shared.where", "shared.subquery", "shared.exists", "shared.in-subquery", "shared.order", "shared.group", "shared.distinct", "shared.cte-wrapped", "par.join", "par.join-fail", "par.async", "par.spinasync", "cached.open-range")
+	floor = append(floor, "shared.where", "shared.subquery", "shared.exists", "shared.in-subquery", "shared.order", "shared.group", "shared.distinct", "shared.cte-wrapped", "par.join", "par.join-fail", "par.async", "par.spinasync", "par.await-async", "cached.open-range")
 	fw.Register(&fw.Prop{
 		ID:    "C13",
 		Title: "Concurrent queries are free of data races, crashes and cross-talk",
@@ -212,7 +212,7 @@ func c13Run(c *fw.Case) {
 		for g := 0; g < G; g++ {
 			for i := 0; i < iters; i++ {
 				var sql, feat string
-				switch c.Intn(5) {
+				switch c.Intn(6) {
 				case 4:
 					// several key groups fail at once: the join must report an error, not dead-lock
 					jn := gen.Pick(c.R, []string{"PARALLEL JOIN", "PARALLEL LEFT JOIN", "PARALLEL HASH_JOIN", "PARALLEL STRAIGHT_JOIN"})
@@ -223,6 +223,8 @@ func c13Run(c *fw.Case) {
 					sql, feat = "SELECT * FROM t1 x "+jn+" u1 y ON "+on, "par.join"
 				case 2:
 					sql, feat = "SELECT rid, ASYNC.VF(n1, rid, 1) AS a, ASYNC.VF(s1, rid, 2) AS b FROM t1 WHERE n1 >= 0", "par.async"
+				case 3:
+					sql, feat = "SELECT rid, AWAIT(ASYNC.VF(n1, rid, 1)) AS a, ASYNC.VF(s1, rid, 2) AS b FROM t1", "par.await-async"
 				default:
 					sql, feat = "SELECT rid, SPINASYNC.VF(n1, rid, 1), ASYNC.VF(s1, rid, 2) AS b FROM t1", "par.spinasync"
 				}
